@@ -474,8 +474,83 @@ def check_contend(item):
     return finish(res, st)
 
 
+def check_ctor(item):
+    """('ctor',): the contention window and the contention function the C constructor stores for 48K and 128K memory (the only
+    per-machine state the harness otherwise supplies itself), read from the IR of CSimulator_init (set_memory is inlined there):
+    the stores into the t0 / t1 / contend fields must be the values the Python CMIOSimulator uses."""
+    import re
+    import skoolkit.cmiosimulator as cm
+    from skoolkit.pagingtracer import Memory
+    res = new_res()
+    st = Stats()
+    M = cmachine(True, '48K', False)
+    txt = open(csim.prepare(True)).read()
+    i = txt.index('define internal i32 @CSimulator_init(')
+    body = txt[i:txt.index('\n}\n', i)].split('\n')
+    fidx = {n: k for k, n in enumerate(M.m.field_names)}
+    geps = {}
+    for l in body:
+        m = re.match(r'\s*(%\d+) = getelementptr inbounds %struct\.CSimulatorObject, %struct\.CSimulatorObject\* %0, i64 0, i32 (\d+)$', l)
+        if m:
+            geps[m.group(1)] = int(m.group(2))
+    found = []          # (field, value) in program order
+    for l in body:
+        m = re.match(r'\s*store (?:i32 (-?\d+)|.*?\* @(contend_\w+)), .*?\* (%\d+), align', l)
+        if m and geps.get(m.group(3)) in (fidx['t0'], fidx['t1'], fidx['contend']):
+            found.append((M.m.field_names[geps[m.group(3)]], int(m.group(1)) if m.group(1) else m.group(2)))
+    groups = [dict(found[k:k + 3]) for k in range(0, len(found), 3)]
+    want = []
+    for mem in ([0] * 65536, Memory()):
+        sim = cm.CMIOSimulator(mem)
+        want.append({'t0': sim.t0, 't1': sim.t1, 'contend': 'contend_48k' if len(mem) == 65536 else 'contend_128k'})
+    res['obligations'] += 1
+    if len(found) != 6 or any(set(g) != {'t0', 't1', 'contend'} for g in groups):
+        res['harness_errors'] = ['ctor: stores into t0/t1/contend not recognised in the IR of CSimulator_init: %r' % (found,)]
+        return finish(res, st)
+    bad = [g for g in groups if g not in want] + [w for w in want if w not in groups]
+    if bad:
+        res['violations'].append(dict(key='C constructor: contention window', text='the C constructor stores %r for the contention window / function; the Python CMIOSimulator uses %r' % (groups, want), case=dict(kind='ctor')))
+    else:
+        res['discharged'] += 1
+        res['nontrivial'] += 1
+        res['samples'].append({'item': 'C constructor contention constants', 'C': groups, 'Python': want, 'verdict': 'equal'})
+    return finish(res, st)
+
+
+def replay_ctor(case):
+    """concrete: contended 48K and 128K simulators, Python vs the compiled extension, one LD A,(HL) from contended memory at every
+    T-state around both ends of the contention window"""
+    import skoolkit.cmiosimulator as cm
+    from skoolkit.pagingtracer import Memory
+    ext = csim.build_extension(True)
+    bad = []
+    for mach, frame, t0, t1 in (('48K', 69888, 14335, 57245), ('128K', 70908, 14361, 58035)):
+        for T in list(range(t0 - 40, t0 + 10)) + list(range(t1 - 900, t1 + 10)):
+            outs = []
+            for cls in (cm.CMIOSimulator, ext.CCMIOSimulator):
+                if mach == '48K':
+                    mem = [0] * 65536 if cls is cm.CMIOSimulator else bytearray(65536)
+                else:
+                    mem = Memory()
+                    if cls is not cm.CMIOSimulator:
+                        mem.convert()
+                mem[0x6000] = 0x7E
+                cfg = {'frame_duration': frame, 'int_active': 32 if mach == '48K' else 36, 'fast_djnz': False, 'fast_ldir': False}
+                sim = cls(mem, None, None, cfg) if cls is not cm.CMIOSimulator else cls(mem, config=cfg)
+                sim.registers[24] = 0x6000
+                sim.registers[6], sim.registers[7] = 0x60, 0x10
+                sim.registers[25] = T
+                sim.run(0x6000)
+                outs.append(sim.registers[25] - T)
+            if outs[0] != outs[1]:
+                bad.append('%s LD A,(HL) at T=%d: Python takes %d T-states, C %d' % (mach, T, outs[0], outs[1]))
+    return bool(bad), '; '.join(bad[:3]) or 'Python and C contend identically at both ends of the window'
+
+
 def work(item):
     k = item[0]
+    if k == 'ctor':
+        return check_ctor(item)
     if k in ('plain', 'cmio', 'cmio-full'):
         return check_slot(item)
     return {'interrupt': check_interrupt, 'tables': check_tables, 'contend': check_contend, 'selftest': check_selftest,
@@ -744,6 +819,8 @@ _runloop_support()
 # ---------------------------------------------------------------------------
 def replay(case):
     kind = case['kind']
+    if kind == 'ctor':
+        return replay_ctor(case)
     if kind == 'table':
         n, bad = csim.compare_tables(case['contention'])
         return bool(bad), 'C/Python table mismatches: %r' % (bad[:2],)
@@ -835,7 +912,7 @@ def main():
     csim.prepare(True)
     slots = z80ref.all_slots()
     io = simcheck.IO_SLOTS
-    items = [('tables', False), ('tables', True), ('selftest', False, args.seed), ('selftest', True, args.seed)]
+    items = [('tables', False), ('tables', True), ('selftest', False, args.seed), ('selftest', True, args.seed), ('ctor',)]
     items += [('plain', '48K', False) + s for s in slots]
     items += [('plain', '48K', True) + s for s in slots if s in io]
     items += [('cmio', '48K', False) + s for s in slots]
